@@ -122,6 +122,7 @@ func c14Alphabet(remap bool) func(m *sx.Model, stack string) []sx.Op {
 			ops = append(ops, sx.Op{Kind: "Put", B: "bka", K: k, Body: "P5", Opt: map[string]string{"class": "GLACIER"}})
 			ops = append(ops, sx.Op{Kind: "Mpu", B: "bka", K: k, Parts: []string{"P5", "a"}, Opt: map[string]string{"class": "DEEP_ARCHIVE", "ct": "x/y"}})
 			ops = append(ops, sx.Op{Kind: "Delete", B: "bka", K: k})
+			ops = append(ops, sx.Op{Kind: "Append", B: "bka", K: k, Body: "a"})
 			for _, cl := range []string{"STANDARD", "GLACIER", "DEEP_ARCHIVE", "STANDARD_IA"} {
 				ops = append(ops, sx.Op{Kind: "Transition", B: "bka", K: k, Opt: map[string]string{"class": cl}})
 			}
@@ -156,7 +157,8 @@ func TestC14(t *testing.T) {
 	run := ev.NewRun("C14", "model_checking")
 	run.Assumptions = []string{"named stores: default + cold (filesystem), default SQL + cold filesystem", "placement read from the parts table and the store directories"}
 	seeds := [][]sx.Op{{{Kind: "CreateBucket", B: "bka"}},
-		{{Kind: "CreateBucket", B: "bka"}, {Kind: "Put", B: "bka", K: "k1", Body: "P5"}, {Kind: "Put", B: "bka", K: "k2", Body: "P5"}}} // shared (deduplicated) part
+		{{Kind: "CreateBucket", B: "bka"}, {Kind: "Put", B: "bka", K: "k1", Body: "P5"}, {Kind: "Put", B: "bka", K: "k2", Body: "P5"}}, // shared (deduplicated) part
+		{{Kind: "CreateBucket", B: "bka"}, {Kind: "Append", B: "bka", K: "k1", Body: "a"}, {Kind: "Append", B: "bka", K: "k1", Body: "a"}}} // one object referencing the same part twice
 	a := &sx.Search{Run: run, TestRun: "^TestWorker$", Seeds: seeds, Stacks: []string{world.StackNamed, world.StackNamedSQL}, Spec: sx.SpecByName("C14"), Depth: 2}
 	b := &sx.Search{Run: run, TestRun: "^TestWorker$", Seeds: seeds, Stacks: []string{world.StackNamed}, Spec: sx.SpecByName("C14remap"), Depth: 2}
 	if !quick() {
